@@ -44,11 +44,25 @@ def rstrip_all(lines):
     return [x.rstrip() for x in lines]
 
 
+class EncoderTouchedItsArgument(Exception):
+    pass
+
+
 async def encode(code, lines, mode, encoding):
     srv = aioftp.Server(encoding=encoding)
     sink = Sink()
-    await srv.write_response(sink, code, lines if len(lines) != 1 or mode else lines[0], mode)
-    return bytes(sink.data)
+    arg = list(lines) if len(lines) != 1 or mode else lines[0]
+    await srv.write_response(sink, code, arg, mode)
+    first = bytes(sink.data)
+    if isinstance(arg, list):
+        # the reply a caller gives is the caller's: written a second time it is the same reply
+        if arg != list(lines):
+            raise EncoderTouchedItsArgument(f"write_response({code!r}, {list(lines)!r}, {mode}) left its argument as {arg!r}")
+        sink2 = Sink()
+        await srv.write_response(sink2, code, arg, mode)
+        if bytes(sink2.data) != first:
+            raise EncoderTouchedItsArgument(f"write_response({code!r}, {list(lines)!r}, {mode}) twice: {first!r} then {bytes(sink2.data)!r}")
+    return first
 
 
 def make_client(reader, encoding):
@@ -126,7 +140,12 @@ async def run_items(case):
         code, lines, mode, enc = item
         if mode and len(lines) < 2:
             continue
-        wire = await encode(code, lines, mode, enc)
+        try:
+            wire = await encode(code, lines, mode, enc)
+        except EncoderTouchedItsArgument as e:
+            viol.append({"key": f"encoder-consumes-the-callers-lines:{'list' if mode else 'normal'}", "msg": str(e),
+                         "replay_case": dict(case, items=[item], masks=None, cmdlines=[], loops=0)})
+            continue
         sent = await encode("299", ["sentinel"], False, enc)
         exp = expected_info(code, lines, mode)
         for cuts in cut_sets(len(wire), rng, tier):
@@ -147,6 +166,34 @@ async def run_items(case):
                              "msg": f"code {code} lines {lines!r} list={mode} {enc} cuts {cuts[:6]}: decoded {got!r}, expected ({code}, {exp!r}) then sentinel",
                              "replay_case": dict(case, items=[item], masks=None, cmdlines=[], loops=0)})
                 break
+        if len(lines) >= 2 and not viol:
+            # the same Client object after a connection that died inside a reply: its next connection starts from scratch
+            cutpos = rng.choice([m_.end() for m_ in __import__("re").finditer(b"\r\n", wire)][:-1] or [len(wire) // 2])
+            c = make_client(asyncio.StreamReader(), enc)
+            c.stream.reader.feed_data(wire[:cutpos])
+            c.stream.reader.feed_eof()
+            try:
+                await asyncio.wait_for(c.parse_response(), 5)
+            except Exception:
+                pass
+            r2 = asyncio.StreamReader()
+            w_ = c.stream.writer
+            c.stream = aioftp.StreamIO(r2, w_)
+            r2.feed_data(wire + sent)
+            r2.feed_eof()
+            got = []
+            for _ in range(2):
+                try:
+                    code_, info_ = await asyncio.wait_for(c.parse_response(), 5)
+                    got.append((str(code_), list(info_)))
+                except Exception as e_:
+                    got.append(("EXC", repr(e_)))
+            mon["reused_client"] = mon.get("reused_client", 0) + 1
+            if not (len(got) == 2 and got[0][0] == code and rstrip_all(got[0][1]) == exp and got[1] == ("299", [" sentinel"])):
+                viol.append({"key": f"reply-decoded-differently-after-reconnect:{'list' if mode else 'normal'}",
+                             "msg": f"a Client whose earlier connection ended after {wire[:cutpos]!r} decodes the replies of its next connection "
+                                    f"({code} {lines!r}, then the sentinel) as {got!r}",
+                             "replay_case": dict(case, items=[item], masks=None, cmdlines=[], loops=0)})
         sigs.add(sig_of(item))
         if sample is None and len(lines) > 2:
             sample = {"code": code, "lines": lines, "list": mode, "encoding": enc, "wire": wire.decode(enc)[:200], "decoded_info": exp}
@@ -267,6 +314,8 @@ def run_case(case):
     loop = asyncio.new_event_loop()
     try:
         return loop.run_until_complete(run_items(case))
+    except EncoderTouchedItsArgument as e:
+        return {"violations": [{"key": "encoder-consumes-the-callers-lines", "msg": str(e)}], "monitors": {"roundtrip": 1}, "sigs": []}
     finally:
         loop.close()
 
